@@ -27,11 +27,11 @@ theorem good2_init (cfg : Cfg) (h0 : cfg.oooWin = 0) (h1 : 0 < cfg.chunkRange) :
   ⟨good_init cfg h0 h1, tinv_init cfg⟩
 
 /-- One step other than `reopen` preserves `Good2` under the decidable side conditions: no F28
-    re-submission at `app`; `del`/`compact` with no appender open; every head stone of a `del` valid. -/
+    re-submission at `app`; `del`/`compact` with no appender open. -/
 theorem step_preserves2 {d : Db} {r : Ref} (hG : Good2 d r) (op : Op) (hnr : op ≠ .reopen)
     (hok : match op with
       | .app s t _ => (MinI64 ≤ t ∧ t < MaxI64) ∧ ¬ resubmits d s t
-      | .del a b sel => d.app = none ∧ stonesValid d a b sel
+      | .del _ _ _ => d.app = none
       | .compact => d.app = none
       | _ => True) :
     ∃ r', Ref.step r op (d.step op).2 = some r' ∧ Good2 (d.step op).1 r' := by
@@ -43,11 +43,11 @@ theorem step_preserves2 {d : Db} {r : Ref} (hG : Good2 d r) (op : Op) (hnr : op 
   | commit => exact ⟨_, rfl, commit_preserves hG, commit_tinv hT⟩
   | rollback => exact ⟨_, rfl, rollback_preserves hG, rollback_tinv hT⟩
   | del a b sel =>
-    have h := delete_tinv_and_preserves hG.inv hG.sim hT a b sel hok.2
+    have h := delete_tinv_and_preserves hG.inv hG.sim hT a b sel
     obtain ⟨e1, _, _, _, e5⟩ := delete_scalars d a b sel
     refine ⟨_, Ref.step_del r a b sel _, ⟨h.1, LastOk.of_no_pending ?_, h.2.1, ?_, ?_⟩, h.2.2⟩
     · show pendingOf (d.delete a b sel) = []
-      unfold pendingOf; rw [e5, hok.1]
+      unfold pendingOf; rw [e5, hok]
     · show (d.delete a b sel).cfg.oooWin = 0
       rw [e1]; exact hG.ooo
     · show 0 < (d.delete a b sel).cfg.chunkRange
